@@ -36,6 +36,9 @@ def opt_sets():
         {"format": "mb", "p_sub": 0.3}, {"format": "dsse", "p_sub": 0.3},
         {"params": True, "p_sub": 0.2, "vary_keys": False, "link_variants": ["honest"] * 4 + ["edited", "sig_keyid"]},
         {"boundary": True, "p_sub": 0.2},
+        # placeholders in rules / commands / run fields whose substitution decides the verdict (C16's generator):
+        # whether and when they are substituted must not depend on the layout's container
+        {"ph": True, "seq": False, "p_sub": 0.1, "vary_keys": False, "deviate": False},
         # per-link checks that must not depend on the container: step-name binding, file-name key id
         {"link_variants": ["honest"] * 3 + ["replayed_name", "other_keyid_name"], "p_sub": 0.05, "vary_keys": False},
     ]
@@ -123,6 +126,7 @@ def run(ctx):
             os.makedirs(wd, exist_ok=True)
             env.rows, env.msgs, env._msgidx = [], [], {}
             base = vscen.build(ctx.rng, env, opts, wd)
+            base.pop("params_seq", None)          # one verification per rendering here (sequences are C16's business)
             for sp in base["specs"]:
                 if sp["pinned"]:
                     st["pinned_kinds"][sp["pinned"]] = st["pinned_kinds"].get(sp["pinned"], 0) + 1
